@@ -30,10 +30,12 @@ def cfg_rules(ctx, cfg):
     return [(ctx.D.term(r.w), r.head, tuple(r.body)) for r in cfg.rules]
 
 
-def automaton_weights(ctx, sk, offset=0, always=()):
+def automaton_weights(ctx, sk, offset=0, always=(), const=None):
+    """free weights of a skeleton; `always`: never zero; `const` {local index: number}: not symbolic at all"""
     n = sk.K
     alw = set(sk.always) | set(always)
-    return [ctx.D.var(offset + k, positive=(k in alw)) for k in range(n)]
+    const = {int(k): v for k, v in (const or {}).items()}
+    return [ctx.D.const(const[k]) if k in const else ctx.D.var(offset + k, positive=(k in alw)) for k in range(n)]
 
 
 def split_weights(sk, ws):
